@@ -14,6 +14,7 @@
 //	add <blk>            addmany <blk>*                 AddBlock / AddBlocks
 //	get <mode d|s|c> <cid> <ans: err|blk> <nOk 0|1>     GetBlock directly / through NewSession / through ContextWithSession
 //	getmany <mode> <nf: -|n> <cid>* | <err | blk*>      GetBlocks; after `|` the exchange's answer
+//	putfail <k> <sticky 0|1> | putfail -               the k-th blockstore write call (Put / PutMany) from now fails
 //	del <cid>      peek <cid>                           DeleteBlock; blockstore.Get behind the service's back
 package bsx
 
@@ -202,6 +203,24 @@ type recStore struct {
 	onIO func(kind string, c cid.Cid)
 	// multihashes written with bytes that do not hash to them (only the exchange answers can be such in C05)
 	polluted map[string]bool
+	// scripted write failure: failAt = number of write calls (Put / PutMany) that still succeed, -1 = none
+	failAt int
+	sticky bool
+}
+
+// failNow consumes one write call of the failure script.
+func (s *recStore) failNow() bool {
+	switch {
+	case s.failAt < 0:
+		return false
+	case s.failAt > 0:
+		s.failAt--
+		return false
+	}
+	if !s.sticky {
+		s.failAt = -1
+	}
+	return true
 }
 
 func hashOK(b blocks.Block) bool {
@@ -210,6 +229,11 @@ func hashOK(b blocks.Block) bool {
 }
 
 func (s *recStore) Put(ctx context.Context, b blocks.Block) error {
+	if s.failNow() {
+		s.r.add("putx:" + s.t.blkTok(b))
+		s.onIO("put", b.Cid())
+		return errStore
+	}
 	s.r.add("put:" + s.t.blkTok(b))
 	s.onIO("put", b.Cid())
 	if has, _ := s.Blockstore.Has(ctx, b.Cid()); !has && !hashOK(b) {
@@ -219,6 +243,13 @@ func (s *recStore) Put(ctx context.Context, b blocks.Block) error {
 }
 
 func (s *recStore) PutMany(ctx context.Context, bs []blocks.Block) error {
+	if s.failNow() {
+		for _, b := range bs {
+			s.r.add("putx:" + s.t.blkTok(b))
+			s.onIO("put", b.Cid())
+		}
+		return errStore
+	}
 	for _, b := range bs {
 		s.r.add("put:" + s.t.blkTok(b))
 		s.onIO("put", b.Cid())
@@ -229,6 +260,7 @@ func (s *recStore) PutMany(ctx context.Context, bs []blocks.Block) error {
 var (
 	errExch   = errors.New("scripted exchange error")
 	errNotify = errors.New("scripted notify error")
+	errStore  = errors.New("scripted blockstore write error")
 )
 
 // scripted exchange: the answers are set before each op.
@@ -327,6 +359,8 @@ func verrName(err error) string {
 		return "exch"
 	case errors.Is(err, errNotify):
 		return "notify"
+	case errors.Is(err, errStore):
+		return "storeerr"
 	}
 	return "other"
 }
@@ -463,11 +497,24 @@ func Exec(c vh.Case, o *vh.Out, mon Monitors) {
 			case "2":
 				exi = sesExch{ex}
 			}
-			rs = &recStore{Blockstore: raw, r: r, t: tab, onIO: onIO, polluted: map[string]bool{}}
+			rs = &recStore{Blockstore: raw, r: r, t: tab, onIO: onIO, polluted: map[string]bool{}, failAt: -1}
 			bs = blockservice.New(rs, exi,
 				blockservice.WithAllowlist(al), blockservice.WriteThrough(f[1] == "0"))
 			o.Kind("ex" + f[2])
 			o.Kind("al-" + f[3])
+			o.Emit("ok")
+		case "putfail":
+			// the k-th blockstore write call from now on fails (0 = the next one); sticky: and every later one
+			if rs == nil {
+				o.Emit("bad-op")
+				break
+			}
+			if f[1] == "-" {
+				rs.failAt = -1
+			} else {
+				rs.failAt, rs.sticky = vh.Atoi(f[1]), f[2] == "1"
+				o.Kind("store-write-failure")
+			}
 			o.Emit("ok")
 		case "vrow":
 			code := uint64(vh.Atoi(f[1]))
